@@ -1,6 +1,6 @@
 (* Props/C11.v — A client abort ends exactly the aborted request; the connection stays usable.
    Only statements.  Request-parser side: Parser/ReqRecords.v; connection side: Async/ConnReads.v, Async/ConnWrites.v. *)
-From FV Require Import Base.Bytes Gen.Generated Parser.ReqModel Parser.ReqTargets Parser.StreamModel Parser.AbsStream Parser.StreamSpec Parser.StreamRefine Parser.StreamInv Codec.Bodies Parser.ReqWire Parser.ReqRecords Parser.ReqFinal Parser.AbortProofs Async.Conn Async.ConnWrites Async.ConnTotal Async.ConnReads Async.ConnLoop.
+From FV Require Import Base.Bytes Gen.Generated Parser.ReqModel Parser.ReqTargets Parser.StreamModel Parser.AbsStream Parser.StreamSpec Parser.StreamRefine Parser.StreamInv Codec.Bodies Parser.ReqWire Parser.ReqRecords Parser.ReqFinal Parser.AbortProofs Async.Conn Async.ConnWrites Async.ConnTotal Async.ConnReads Async.ConnLoop Async.AbortFlowTargets Async.AbortFlowProofs.
 
 (* ==== pinned from the proof files (tools/write_props.py) ==== *)
 
@@ -132,3 +132,100 @@ Theorem C11_one_endrequest_and_reuse :
   end.
 Proof. exact close_reuse_iff. Qed.
 
+(* ---- the abort flow end to end ----  Request::close on an aborted request, every fault-free transport, any
+   status: it never suspends for good, reads nothing, writes exactly close_bytes (pending replies, the stream
+   terminators owed, ONE EndRequest), and with KeepConn hands back a parser whose leftover is exactly the
+   unparsed input beginning with the retained abort header (skipped as idle junk by the next request parser:
+   C01/C07); without KeepConn the connection ends after the complete epilogue *)
+Theorem C11_abort_close :
+  forall (maxc : N) (r : rstate) (disc code app0 ps : N) (w : world),
+  rinv r ->
+  err_at (abs (rsp r)) EAbortRequest ->
+  raborted r = true ->
+  rlock r = false ->
+  world_ok w ->
+  no_fault (wscript w) ->
+  exit_to_end disc code = Some (app0, ps) ->
+  match do_close maxc r disc code w with
+  | Ok (inl rp) w' =>
+      keep_conn r /\
+      wlog w' = wlog w ++ close_bytes r app0 ps /\
+      remaining w' = remaining w /\
+      rscript w' = rscript w /\
+      held rp = raw_bytes (rsp r) /\ cap rp = len (buffer (rsp r)) /\ st rp = Header
+  | Ok (inr k) w' =>
+      k = EK_Reset /\
+      ~ keep_conn r /\
+      wlog w' = wlog w ++ close_bytes r app0 ps /\ remaining w' = remaining w /\ rscript w' = rscript w
+  | Halt _ _ => False
+  end.
+Proof. exact abort_close. Qed.
+
+(* where the aborted state comes from: a handler that only reads and does not fabricate a ConnectionAborted
+   error of its own ends with Err(ConnectionAborted) on a fault-free transport ONLY because a read hit the
+   client's AbortRequest: the parser stands at the abort header and Request.aborted is set *)
+Theorem C11_handler_abort_source :
+  forall (maxc : N) (f : nat) (script : list N) (r : rstate) (w : world) (r1 : rstate) (w1 : world),
+  no_fab script ->
+  rinv r ->
+  world_ok w ->
+  no_fault (wscript w) ->
+  rlock r = false ->
+  run_handler maxc f script r w = Ok (inr EK_Aborted, r1) w1 ->
+  rinv r1 /\
+  world_ok w1 /\
+  no_fault (wscript w1) /\ rlock r1 = false /\ err_at (abs (rsp r1)) EAbortRequest /\ raborted r1 = true.
+Proof. exact handler_abort_source. Qed.
+
+(* one iteration of Token::run for such a request: the handler's Err(ConnectionAborted) becomes
+   ExitStatus::ABORT ('ABRT', RequestComplete), exactly close_bytes follow what the handler run had written,
+   nothing more is read; with KeepConn the loop goes on with the handed-back parser, otherwise the task returns *)
+Theorem C11_abort_iteration :
+  forall (norm : bytes -> bytes) (maxc : N) (fuel : nat) (p : parser) (scripts : list (list N))
+    (served : nat) (w : world) (s0 : sp) (w' : world),
+  stopped w = false ->
+  parse_request norm maxc (io_fuel w 0) p [] w = Ok (inl s0) w' ->
+  let rq := sreq s0 in
+  let r0 :=
+    {|
+      rsp := s0;
+      rwriteable := len (Header.role_input_streams (r_role rq)) <=? 1;
+      rlock := false;
+      raborted := false
+    |} in
+  let env := EnvCanon.canon_env (r_env rq) in
+  let w1 :=
+    fold_left (fun (w0 : world) (p0 : list N * list N) => w_ev (w_ev w0 (fst p0)) (snd p0)) env
+      (w_ev (w_ev w' [100; epoch w'])
+         [r_role rq; r_flags rq; len env; stream_code (stream s0); if rwriteable r0 then 1 else 0]) in
+  let script := nth served scripts (last scripts []) in
+  forall (r1 : rstate) (w2 : world),
+  no_fab script ->
+  rinv r0 ->
+  world_ok w1 ->
+  no_fault (wscript w1) ->
+  run_handler maxc (length script + 2) script r0 w1 = Ok (inr EK_Aborted, r1) w2 ->
+  exists w3 : world,
+    wlog w3 = wlog w2 ++ close_bytes r1 EXIT_ABORT_CODE PS_RequestComplete /\
+    remaining w3 = remaining w2 /\
+    (keep_conn r1 /\
+     (exists rp : parser,
+        held rp = raw_bytes (rsp r1) /\
+        cap rp = len (buffer (rsp r1)) /\
+        st rp = Header /\
+        run_loop norm maxc (S fuel) p scripts served w = run_loop norm maxc fuel rp scripts (S served) w3) \/
+     ~ keep_conn r1 /\ run_loop norm maxc (S fuel) p scripts served w = (ORet, w3)).
+Proof. exact abort_iteration. Qed.
+
+(* non-vacuity of C11_abort_close: a Responder request (KeepConn) whose Stdin is followed by a GetValues query and the AbortRequest; the
+   handler propagates its read errors; reads and writes are cut and Pending in between: every hypothesis holds for the state the
+   handler run ends in, and close writes the two stream terminators and ONE EndRequest carrying "ABRT"; the handed-back parser holds
+   the abort record and what followed it *)
+Example C11_abort_close_example :
+  match do_close 10 AbortExample.r1 EXIT_Complete EXIT_ABORT_CODE AbortExample.w1 with
+  | Ok (inl rp') w' =>
+      wlog w' = wlog AbortExample.w1 ++ [1;6;0;7;0;0;0;0; 1;7;0;7;0;0;0;0; 1;3;0;7;0;8;0;0; 65;66;82;84; 0; 0;0;0] /\
+      held rp' = [1;2;0;7;0;0;2;0;9;9; 1;5;0;7;0;0;0;0] /\ cap rp' = 128 /\ st rp' = Header
+  | _ => False
+  end.
+Proof. exact AbortExample.abort_close_instance. Qed.
